@@ -5,6 +5,7 @@ timeout taken as INFINITE (the shim blocks until a descriptor is ready), so a
 missing wake-up shows as a quiescent state with work left.  TLC judges every
 recorded trace with the monitor clauses P05_* of spec/Pipeline.tla."""
 from checks import chan_common as cc
+from checks import chan_random
 from wv import h_channel
 from checks import chan_model
 
@@ -38,6 +39,11 @@ def scenarios(thorough):
             out.append(cc.mk([P(1)], room=10, extra_client=[["read_after_block", 2, 20], ["readall_after_block", 3]], drains=False,
                              faults={"send": [None] * nth + [e]}, apps={1: {"chunks": [40, 40, 40], "cl": "none"}},
                              adj={"outbuf_high_watermark": 30}, name="producer over watermark, send#%d fails %s" % (nth + 1, errno.errorcode[e])))
+    # a spurious readiness report (recv finds nothing: EAGAIN) on a fresh connection / before the second request of a
+    # keep-alive connection: whatever the server makes of it, the connection is not left open and unserved
+    for use_poll in (False, True):
+        out.append(cc.mk([P(1)], use_poll=use_poll, faults={"recv": [errno.EAGAIN]}, name="recv#1 reports EAGAIN %s" % ("poll" if use_poll else "select")))
+        out.append(cc.mk([P(1), P(2)], use_poll=use_poll, split="each", faults={"recv": [None, errno.EAGAIN]}, name="recv#2 reports EAGAIN %s" % ("poll" if use_poll else "select")))
     # degenerate marks: a drain that ends exactly on the mark must release the producer
     out.append(cc.mk([P(1)], room=40, extra_client=[["read", 30], ["read", 45], ["readall"]], apps={1: {"chunks": [30, 30, 30], "cl": "none"}},
                      adj={"outbuf_high_watermark": 0, "send_bytes": 1}, name="producer over watermark 0"))
@@ -59,6 +65,7 @@ def run(chk, replay=None):
     chan_model.model_check(chk, "C05", scns)
     n_pct, dfs = (700, 2400) if chk.thorough else (150, 700)
     cc.explore_and_validate(chk, "C05", scns, n_pct, dfs, bound=2, label="wakeup")
+    chan_random.explore(chk, "C05")
     chk.rule = ("cases = schedules of the real server with the poll timeout infinite, over %d scenarios (response sizes around send_bytes / watermark / SO_SNDBUF, "
                 "slow readers, select and poll); evaluations = distinct traces judged by TLC; non-trivial = >= 2 requests or a close" % len(scns))
     chk.assumptions += ["the client keeps reading (drains) in every scenario; quiescence = no logical thread enabled", "simulated kernel"]
